@@ -573,11 +573,29 @@ pub fn check_c01_input(b: &[u8], l: &mut Local, coll: &Collector) {
         total!("Script::from_str", Script::from_str(s));
         total!("Region::from_str", Region::from_str(s));
         total!("Variant::from_str", Variant::from_str(s));
+        // serde's Deserialize accepts text too (feature `serde`): directly as a string of serde's
+        // data model, and through a JSON document
+        #[cfg(feature = "serde")]
+        {
+            use serde::de::value::{Error as VErr, StrDeserializer, StringDeserializer};
+            use serde::Deserialize;
+            total!("LanguageIdentifier::deserialize(str)", LanguageIdentifier::deserialize(StrDeserializer::<VErr>::new(s)));
+            total!("LanguageIdentifier::deserialize(String)", LanguageIdentifier::deserialize(StringDeserializer::<VErr>::new(s.to_string())));
+            total!("serde_json::from_str::<LanguageIdentifier>", match serde_json::to_string(s) {
+                Ok(doc) => serde_json::from_str::<LanguageIdentifier>(&doc).map_err(|_| ()),
+                Err(_) => Err(()),
+            });
+        }
     }
     // the comparisons with text (`== &str`, `== str`) also accept arbitrary text: every accepted
     // identifier / subtag is compared with the probe texts built around its own canonical text
     // (prefixes, extensions, multi-byte characters at every byte offset)
     if let Out::Ok(li) = guard(|| LanguageIdentifier::from_bytes(b)) {
+        #[cfg(feature = "serde")]
+        {
+            total!("serde_json::to_string(LanguageIdentifier)", serde_json::to_string(&li).map_err(|_| ()));
+            total!("serde_json::to_value(LanguageIdentifier)", serde_json::to_value(&li).map_err(|_| ()));
+        }
         if let Ok(c) = guard_total(|| li.to_string()) {
             for p in eq_probes(&c) {
                 total!("LanguageIdentifier == &str", Ok::<bool, ()>(li == p.as_str()));
